@@ -7,7 +7,7 @@ from vfw.lifecycle import E
 
 LEVEL = 'fault_enumeration'
 ASSUMPTIONS = [
-    'in-process Pythia (PythiaServicer with a scripted PolicyFactory, the public seam DefaultVizierServer uses)',
+    'in-process Pythia (PythiaServicer with a scripted PolicyFactory, the public seam DefaultVizierServer uses) for the state-space search; the same faults are replayed on loopback gRPC deployments (DefaultVizierServer, DistributedPythiaVizierServer) on fixed short histories',
     'fault alphabet: ValueError / RuntimeError / KeyError / custom Exception subclass raised by suggest or early_stop, failure at policy construction, delivery 0 / N-1 / N / N+2, metadata naming a missing trial',
     'a failure may be reported either as a done operation with error or as an error status; both are accepted',
 ]
@@ -89,6 +89,62 @@ def expand(task):
   return statespace.expand_paths(system(task['cfg']), task['paths'])
 
 
+def remote_shard(task):
+  """The same faults through a gRPC server and through a gRPC server with a separate Pythia server: the failing
+  call must be reported, nothing may stay unfinished, and the next call must reach the algorithm and succeed."""
+  from props import c08
+  from vfw import lifecycle, svc
+  from vizier._src.service import study_pb2
+  svc.install_clock()
+  vios, n = {}, 0
+  for mode, db in task['deployments']:
+    dep = c08.deployments([(mode, db)])[0]
+    for prefix in ([], [('add_trial', 'in')], [('suggest', 1, 'a')]):
+      for fault in task['faults']:
+        for target in ('suggest', 'check_early_stopping'):
+          if target == 'check_early_stopping' and not any(k in fault for k in ('fail_stop', 'fail_factory')):
+            continue
+          if target == 'suggest' and 'fail_stop' in fault:
+            continue
+          n += 1
+          dep.reset()
+          dep.env.__init__()
+          dep.servicer.CreateStudy(svc.vs.CreateStudyRequest(parent=svc.OWNER, study=study_pb2.Study(display_name='s', study_spec=svc.spec())))
+          for op in prefix:
+            c08.run_op(dep, op)
+          if target == 'check_early_stopping':
+            c08.run_op(dep, ('suggest', 1, 'a'))
+          calls0 = dep.env.suggest_calls + dep.env.stop_calls + dep.env.factory_calls
+          dep.env.reset()
+          for k, v in fault.items():
+            setattr(dep.env, k, v)
+          failing = ('suggest', 2, 'a') if target == 'suggest' else ('check_early_stopping', 1)
+          o1 = c08.run_op(dep, failing)
+          reached1 = (dep.env.suggest_calls + dep.env.stop_calls + dep.env.factory_calls) > calls0
+          dep.env.reset()
+          calls1 = dep.env.suggest_calls + dep.env.stop_calls + dep.env.factory_calls
+          svc.CLOCK.now += 10 ** 6     # past any recycle period
+          o2 = c08.run_op(dep, failing)
+          reached2 = (dep.env.suggest_calls + dep.env.stop_calls + dep.env.factory_calls) > calls1
+          svc.CLOCK.now -= 10 ** 6
+          state = svc.canon_state(dep.servicer.datastore, ('s',), ('a', 'b', 'unused'), 6, svc.CLOCK.now, 10 ** 9)
+          who = '%s/%s' % (mode, db)
+          fk = ','.join('%s=%s' % kv for kv in sorted(fault.items()))
+
+          def V(clause, text):
+            sig = 'C06|remote:%s|%s|%s|%s' % (clause, target, sorted(fault)[0], mode)
+            vios.setdefault(sig, {'sig': sig, 'desc': '[%s] prefix %s fault %s: %s' % (who, prefix, fk, text), 'case': {'remote': True}})
+          if reached1 and o1[0] != 'exc':
+            V('failure-not-reported', 'the failing %s returned %s' % (target, str(o1)[:120]))
+          if o2[0] != 'ok':
+            V('later-call-fails', 'the next %s (algorithm healthy again) gives %s' % (target, o2))
+          elif not reached2 and target == 'suggest':
+            V('later-call-does-not-reach-algorithm', 'the next suggest was answered without consulting the algorithm: %s' % (str(o2)[:120],))
+          for clause, text in lifecycle.invariants(state):
+            V('invariant:' + clause, text)
+  return {'n': n, 'violations': list(vios.values())}
+
+
 def run(ctx):
   if ctx.quick:
     plans = [({'backends': ['ram'], 'max_trials': 3, 'max_ops': 3, 'counts': (1, 2), 'max_id': 5, 'quick': True}, 4),
@@ -111,6 +167,15 @@ def run(ctx):
     cov['exhaustive'] = cov['exhaustive'] and c['exhaustive']
     c['cfg'] = cfg
     cov['runs'].append(c)
+  faults = [{'fail_suggest': 'RuntimeError'}, {'fail_suggest': 'KeyError'}, {'fail_factory': 'ValueError'}, {'fail_stop': 'RuntimeError'}, {'fail_stop': 'ScriptedError'}]
+  rdeps = [('grpc', 'ram'), ('pythia', 'ram')] if ctx.quick else [('grpc', 'ram'), ('pythia', 'ram'), ('grpc', 'sql'), ('pythia', 'sql')]
+  rn = 0
+  for r in ctx.pmap('remote_shard', [{'deployments': [d], 'faults': faults} for d in rdeps]):
+    rn += r['n']
+    ctx.extend(r['violations'])
+  cov['remote_fault_scenarios'] = rn
+  cov['transitions'] += rn
+  cov['traces_validated_against_impl'] += rn
   # exploration-style keys required for the fault_enumeration level
   cov['evaluations'] = cov['transitions']
   cov['distinct_nontrivial'] = cov['states']
